@@ -71,6 +71,17 @@ func init() {
 		vm.Set("m", map[string]*bridge.Inner{"a": {N: 1}})
 		return script(vm, `try { m.b = null; 'stored ' + ('b' in m) } catch (e) { 'caught ' + e.name }`)
 	}
+	w["c16_elem_write_pointer_value"] = func() (string, error) {
+		m := map[string]*bridge.Inner{"a": {N: 1}}
+		vm := otto.New()
+		vm.Set("m", m)
+		return script(vm, `try { m.x = {N: 2}; 'stored ' + m.x.N } catch (e) { 'caught ' + e.name }`)
+	}
+	w["c16_slice_length_invalid"] = func() (string, error) {
+		vm := otto.New()
+		vm.Set("s", []int{1, 2})
+		return script(vm, `try { s.length = -1; 'ok' } catch (e) { 'caught ' + ((e instanceof Error) ? e.name : typeof e) }`)
+	}
 	w["c16_tag_dash_comma"] = func() (string, error) {
 		vm := otto.New()
 		vm.Set("t", &bridge.Tagged{DashComma: 7})
